@@ -23,6 +23,7 @@ import (
 	"github.com/pingcap/kvproto/pkg/pdpb"
 	"github.com/tikv/pd/server/api"
 	"github.com/tikv/pd/server/core"
+	"github.com/tikv/pd/server/kv"
 	"github.com/tikv/pd/server/tso"
 	"go.etcd.io/etcd/clientv3"
 
@@ -234,6 +235,7 @@ type world struct {
 	ctx context.Context
 	R   *res.Result
 	api http.Handler // the real REST router (server/api)
+	hold *kvx15.Hold // holds single etcd requests of the storage's client
 
 	ambiguous bool // a failing service call straddled a second boundary of the TSO clock: its `now` is unknown
 }
@@ -716,6 +718,12 @@ func (w *world) step(c *caseRec, o op) string {
 	if o.Wait > 0 {
 		time.Sleep(time.Duration(o.Wait) * time.Millisecond)
 	}
+	if o.Wait < 0 {
+		// start early in a second of the TSO clock, so that the waits that follow land where they are meant to
+		for w.tsoNow().Nanosecond() > 300*int(time.Millisecond) {
+			time.Sleep(20 * time.Millisecond)
+		}
+	}
 	ob := w.exec(&o)
 	c.Ops = append(c.Ops, o)
 	c.Obs = append(c.Obs, "("+ob+", "+w.view()+")")
@@ -840,6 +848,62 @@ func (w *world) svcRace() {
 	}
 	w.R.Violate("C15:service-update-not-serialised", desc,
 		[]string{"svc gc_worker inf 40", "begin svc a1 1000 45 (parked at save)", "svc gc_worker inf 60", "release a1"})
+}
+
+// heldRead: an interleaving at the granularity of single etcd requests. stored 100; U1 = UpdateGCSafePoint(200) is parked
+// before its write; G1 = GetGCSafePoint (lock-free) reads: etcd answers 100 and the answer is held on its way back; U1's
+// write goes through, U1 is acknowledged 200; U2 = UpdateGCSafePoint(150) starts after that; then G1's answer arrives.
+// U2 must be answered 200 and 200 must stay stored. Emitted as a case with G1 linearised where etcd answered it.
+func (w *world) heldRead() *caseRec {
+	w.reset()
+	var c caseRec
+	w.step(&c, op{K: "upd", T: 0, V: 100})
+	w.step(&c, op{K: "get"})
+	if ob := w.step(&c, op{K: "begin", T: 0, V: 200}); ob != "BStarted" {
+		w.drain(&c)
+		return nil
+	}
+	reached, release := w.hold.Arm(kvx15.MethodRange, "/"+gcKey, true)
+	g1 := make(chan string, 1)
+	go func() {
+		r, err := w.x.S.GetGCSafePoint(w.ctx, &pdpb.GetGCSafePointRequest{Header: w.x.Header()})
+		noteErr(err)
+		if err != nil || r.GetHeader().GetError() != nil {
+			g1 <- "BErr"
+			return
+		}
+		g1 <- "BResp " + coqfmt.ZU(r.GetSafePoint())
+	}()
+	select {
+	case <-reached:
+	case <-time.After(10 * time.Second):
+		w.hold.Disarm()
+		w.R.Notes = append(w.R.Notes, "held-read scenario incomplete: GetGCSafePoint's etcd read was not seen by the interceptor")
+		w.drain(&c)
+		<-g1
+		return nil
+	}
+	viewAtRead := w.view() // etcd has answered G1: this is where it is linearised
+	g1Slot := len(c.Ops)
+	c.Ops = append(c.Ops, op{K: "get"})
+	c.Obs = append(c.Obs, "") // filled in when the answer arrives
+	w.step(&c, op{K: "finish", T: 0})
+	// U2 starts after U1's acknowledgement; G1's answer arrives a little later
+	w.start(1, 150, false)
+	var u2 result
+	select {
+	case u2 = <-w.thr[1].done:
+		close(release)
+	case <-time.After(300 * time.Millisecond):
+		close(release)
+		u2 = <-w.thr[1].done
+	}
+	c.Obs[g1Slot] = "(" + <-g1 + ", " + viewAtRead + ")"
+	c.Ops = append(c.Ops, op{K: "upd", T: 1, V: 150})
+	c.Obs = append(c.Obs, "("+respObs(u2)+", "+w.view()+")")
+	w.step(&c, op{K: "get"})
+	w.R.Count("held-etcd-read:scenario")
+	return &c
 }
 
 // malformedProbe: an unparsable value below the service prefix (outside the model: the model's entries are parsed ones).
@@ -1227,6 +1291,10 @@ func directed() [][]op {
 		// must not lose any of them; the smallest safe points and an expired entry sit right behind would-be page boundaries
 		{bulk(nil), {K: "svc", ID: "a1", TTL: 1000, SP: 500}, {K: "svc", ID: "t099-x", TTL: 1000, SP: 12}, {K: "svc", ID: "t049-x", TTL: 0, SP: 0},
 			{K: "svc", ID: "gc_worker", TTL: math.MaxInt64, SP: 60}, {K: "apidel", ID: "t099-x"}, {K: "svc", ID: "b2", TTL: 1000, SP: 55}},
+		// a lease renewal with an unchanged safe point while more than half of the TTL is left, then a request in the window
+		// in which only the renewed lease is still running (real time: TTL 6 s, renewal after 2.5 s, request after 7.2 s)
+		{{K: "svc", ID: "gc_worker", TTL: math.MaxInt64, SP: 30}, {K: "svc", ID: "a1", TTL: 6, SP: 40, Wait: -1}, {K: "svc", ID: "a1", TTL: 6, SP: 40, Wait: 2500},
+			{K: "svc", ID: "gc_worker", TTL: math.MaxInt64, SP: 60, Wait: 4700}, {K: "svc", ID: "b2", TTL: 1000, SP: 45}},
 		// every live safe point is MaxUint64
 		{{K: "svc", ID: "gc_worker", TTL: inf, SP: math.MaxUint64}, {K: "svc", ID: "a1", TTL: 1000, SP: math.MaxUint64}, {K: "svc", ID: "a1", TTL: 1000, SP: 5}},
 	}
@@ -1262,7 +1330,15 @@ func main() {
 		os.Exit(2)
 	}
 	st := x.S.GetStorage()
-	b := kvx15.New(st.Base)
+	// the storage's real etcdKVBase is rebuilt over an etcd client whose single requests can be held (kvx15.Hold); the
+	// parking kv.Base wrapper sits on top of it
+	hc, hold, err := kvx15.DialHeld(x.S.GetClient().Endpoints())
+	if err != nil {
+		fmt.Fprintln(os.Stderr, "etcd client:", err)
+		os.Exit(2)
+	}
+	defer hc.Close()
+	b := kvx15.New(kv.NewEtcdKVBase(hc, path.Dir(x.S.GetClusterRootPath())))
 	st.Base = b
 	R := res.New("C15", *seed, *tier)
 	R.Rule = "histories of UpdateGCSafePoint (complete, or parked between LoadGCSafePoint and SaveGCSafePoint and released with " +
@@ -1270,7 +1346,7 @@ func main() {
 		"TTL <=0, finite, saturating), raw seeded entries (expired, live, infinite, finite gc_worker) and REST deletes on a real bootstrapped " +
 		"server; non-trivial = an acknowledged update overtook a parked one, or a storage fault, or a registration was refused below the " +
 		"minimum, or an expired entry was pruned, or a handler returned an error; distinct by sha256 of the canonical (ops,obs) text"
-	w := &world{x: x, st: st, b: b, ctx: context.Background(), R: R}
+	w := &world{x: x, st: st, b: b, hold: hold, ctx: context.Background(), R: R}
 	tsoClock = func() int64 { return w.tsoNow().Unix() }
 	w.api, _, err = api.NewHandler(w.ctx, x.S)
 	if err != nil {
@@ -1403,6 +1479,9 @@ func main() {
 	if *replay == "" {
 		w.svcRace()
 		w.malformedProbe()
+		if c := w.heldRead(); c != nil {
+			emit(*c, "directed:held-etcd-read")
+		}
 		if *tier == "thorough" {
 			for _, d := range directedThorough() {
 				runFixed(d, "directed-real-expiry")
